@@ -145,6 +145,23 @@ def gen_ops(tier, rng):
         vals = _vec(rng, n, rng.choice([0.0, 0.0, 0.1, 0.3]))
         for name in rng.sample(ALL, 7):
             yield "agg.window", "preagg %s %s %s %s %s" % (axis, name, xr(h), xvec(coords), xvec(vals))
+    # --- hidden state: grids that share length, end points and window but differ inside, back to back in the
+    #     same process (a cache keyed on too little of the grid would reuse the first grid's windows)
+    for _ in range(40 if quick else 600):
+        axis = rng.choice(["leadtime", "time"])
+        n = rng.choice([3, 4, 5, 7])
+        last = rng.choice([12, 24, 48])
+        scale = 1 if axis == "leadtime" else 3600
+        base = 0 if axis == "leadtime" else 946684800
+        grids = []
+        for _g in range(3):
+            inner = sorted(rng.sample([x * 0.5 for x in range(1, 2 * last)], n - 2))
+            grids.append([base + 0 * scale] + [base + c * scale for c in inner] + [base + last * scale])
+        h = rng.choice([1.5, 3, 6, 12])
+        name = rng.choice(ALL)
+        vals = _vec(rng, n, 0.0)
+        for g in grids:
+            yield "agg.window.state", "preagg %s %s %s %s %s" % (axis, name, xr(h), xvec(g), xvec(vals))
     # --- the same on 3-D / 4-D arrays (time, leadtime, location[, member])
     for _ in range(40 if quick else 800):
         axis = rng.choice(["leadtime", "time"])
